@@ -35,7 +35,7 @@ import (
 // component / name interning:  a component is printed as "<typ>.<valueid>", a name as "/"-joined components ("/" = root)
 // ---------------------------------------------------------------------------------------------------------------
 
-var compValues = []string{"localhost", "a", "b", "c", "nfd", "d", "region", "hub", "e", "localhop"}
+var compValues = []string{"localhost", "a", "b", "c", "nfd", "d", "region", "hub", "e", "localhop", "aaaaaaaaa"}
 
 func valID(v []byte) int {
 	for i, s := range compValues {
@@ -109,6 +109,7 @@ type recFace struct {
 	scope defn.Scope
 	link  defn.LinkType
 	log   *[]sent
+	pend  *[]queued
 	cur   *int // forwarding thread being drained
 }
 
@@ -121,10 +122,23 @@ func (f *recFace) Scope() defn.Scope       { return f.scope }
 func (f *recFace) LinkType() defn.LinkType { return f.link }
 func (f *recFace) MTU() int                { return 8800 }
 func (f *recFace) State() defn.State       { return defn.Up }
+// SendPacket only queues, like linkServiceBase.SendPacket does: the packet bytes are looked at when the face's send loop gets to
+// it (world.flush), after the forwarding thread has returned
 func (f *recFace) SendPacket(out dispatch.OutPkt) {
-	// what would go on the wire: the raw bytes of the packet as they are now (hop limit is patched in place)
-	s := sent{thr: *f.cur, face: f.id, hop: "-", tok: hx(out.PitToken)}
-	raw := append([]byte{}, out.Pkt.Raw...)
+	*f.pend = append(*f.pend, queued{thr: *f.cur, face: f.id, pkt: out.Pkt, tok: append([]byte{}, out.PitToken...)})
+}
+
+type queued struct {
+	thr  int
+	face uint64
+	pkt  *defn.Pkt
+	tok  []byte
+}
+
+// encode looks at a queued packet the way the send loop does: the raw bytes as they are now (hop limit patched in place)
+func (q queued) encode() sent {
+	s := sent{thr: q.thr, face: q.face, hop: "-", tok: hx(q.tok)}
+	raw := append([]byte{}, q.pkt.Raw...)
 	p, _, err := spec.ReadPacket(enc.NewBufferReader(raw))
 	if err != nil {
 		s.kind = "X"
@@ -143,7 +157,7 @@ func (f *recFace) SendPacket(out dispatch.OutPkt) {
 		s.kind = "X"
 		s.name = "/"
 	}
-	*f.log = append(*f.log, s)
+	return s
 }
 
 // ---------------------------------------------------------------------------------------------------------------
@@ -164,6 +178,9 @@ type world struct {
 	log     []sent
 	faces   map[uint64]*recFace
 	expired []uint32
+	pend    []queued
+	rxbuf   []byte // the receive buffer of the `frames` operation (reused for every frame, like a transport's)
+	lsvc    map[uint64]*face.NDNLPLinkService
 	cur     int
 	nthr    int
 	dnlMs   int
@@ -249,6 +266,7 @@ func (wd *world) exec(line string) {
 	// every operation happens at a distinct virtual instant
 	time.Sleep(time.Microsecond)
 	wd.log = wd.log[:0]
+	wd.pend = wd.pend[:0]
 	wd.expired = wd.expired[:0]
 	switch f[0] {
 	case "face":
@@ -259,7 +277,7 @@ func (wd *world) exec(line string) {
 				sc = defn.Local
 			}
 			lt, _ := strconv.Atoi(f[4])
-			rf := &recFace{id: id, scope: sc, link: defn.LinkType(lt), log: &wd.log, cur: &wd.cur}
+			rf := &recFace{id: id, scope: sc, link: defn.LinkType(lt), log: &wd.log, pend: &wd.pend, cur: &wd.cur}
 			wd.faces[id] = rf
 			dispatch.AddFace(id, rf)
 		} else {
@@ -329,6 +347,11 @@ func (wd *world) exec(line string) {
 		now := wd.now()
 		wd.threads[k].VerifSweepDeadNonces()
 		wd.pf("ev sweep %d %d\n", k, now)
+	case "frames":
+		// frames <face> <nameA> <nameB> <nonceA> <nonceB>: two LP-wrapped Interests arrive back to back through the real NDNLP link
+		// service of the face, in the same receive buffer; the faces' send loops run only after the second frame was read
+		wd.doFrames(fmt.Sprintf("int %s %s 0 0 %s - - - - -", f[1], f[2], f[4]), fmt.Sprintf("int %s %s 0 0 %s - - - - -", f[1], f[3], f[5]))
+		return
 	case "int":
 		wd.doInterest(f, line)
 	case "data":
@@ -410,6 +433,108 @@ func (wd *world) doInterest(f []string, line string) {
 	wd.pf("pick thr %d\n", tid)
 }
 
+// buildInterest makes the wire of the Interest described by the fields of an `int` operation (f[0] = "int")
+func buildInterestWire(f []string) []byte {
+	name := parseName(f[2])
+	cfg := &ndn.InterestConfig{CanBePrefix: f[3] == "1", MustBeFresh: f[4] == "1"}
+	if opt(f[5]) {
+		x, _ := strconv.ParseUint(f[5], 10, 64)
+		cfg.Nonce = utils.IdPtr(x)
+	}
+	if opt(f[6]) {
+		ms, _ := strconv.ParseInt(f[6], 10, 64)
+		cfg.Lifetime = utils.IdPtr(time.Duration(ms) * time.Millisecond)
+	}
+	if opt(f[7]) {
+		h, _ := strconv.ParseUint(f[7], 10, 64)
+		cfg.HopLimit = utils.IdPtr(uint(h))
+	}
+	ei, err := spec.Spec{}.MakeInterest(name, cfg, nil, nil)
+	if err != nil {
+		panic(err)
+	}
+	return ei.Wire.Join()
+}
+
+func (wd *world) entryToken(tid int, f []string) string {
+	name := parseName(f[2])
+	tok := "-"
+	for _, e := range wd.threads[tid].VerifPitCs().(*table.PitCsTree).VerifDumpPit() {
+		if e.Name.Equal(name) && e.CanBePrefix == (f[3] == "1") && e.MustBeFresh == (f[4] == "1") && len(e.Hint) == 0 {
+			tok = strconv.FormatUint(uint64(e.Token), 10)
+		}
+	}
+	return tok
+}
+
+// doFrames: opA and opB are `int` operations without hints, PIT token and NextHopFaceId, arriving on the same face
+func (wd *world) doFrames(opA, opB string) {
+	fa, fb := strings.Fields(opA), strings.Fields(opB)
+	id := faceID(fa[1])
+	if wd.lsvc == nil {
+		wd.lsvc = map[uint64]*face.NDNLPLinkService{}
+	}
+	ls := wd.lsvc[id]
+	if ls == nil {
+		ls = face.VerifFwLinkService(wd.scopeOf(id), id)
+		wd.lsvc[id] = ls
+	}
+	if wd.rxbuf == nil {
+		wd.rxbuf = make([]byte, 9000)
+	}
+	frame := func(f []string) []byte {
+		lp := &spec.Packet{LpPacket: &spec.LpPacket{Fragment: enc.Wire{buildInterestWire(f)}}}
+		e := spec.PacketEncoder{}
+		e.Init(lp)
+		return e.Encode(lp).Join()
+	}
+	wd.pf("mark frames\n")
+	// frame A is read into the receive buffer, handled and processed by the forwarding thread
+	n := copy(wd.rxbuf, frame(fa))
+	nowA := wd.now()
+	tidA := fw.HashNameToFwThread(parseName(fa[2]))
+	face.VerifFwHandleFrame(ls, wd.rxbuf[:n])
+	wd.drain()
+	nA := len(wd.pend)
+	tokA := wd.entryToken(tidA, fa)
+	var stateA strings.Builder
+	saved := wd.w
+	wd.w = bufio.NewWriter(&stateA)
+	for k, th := range wd.threads {
+		wd.observeThread(k, th)
+	}
+	wd.w.Flush()
+	wd.w = saved
+	// frame B is read into the SAME buffer before the send loops of the faces have run
+	time.Sleep(time.Microsecond)
+	n = copy(wd.rxbuf, frame(fb))
+	nowB := wd.now()
+	tidB := fw.HashNameToFwThread(parseName(fb[2]))
+	face.VerifFwHandleFrame(ls, wd.rxbuf[:n])
+	wd.drain()
+	tokB := wd.entryToken(tidB, fb)
+	// now the send loops run
+	var logA, logB []sent
+	for i, q := range wd.pend {
+		if i < nA {
+			logA = append(logA, q.encode())
+		} else {
+			logB = append(logB, q.encode())
+		}
+	}
+	wd.pend = wd.pend[:0]
+	wd.pf("ev int %d %s\n", nowA, strings.Join(fa[1:], " "))
+	wd.pf("pick tok %s\npick thr %d\n", tokA, tidA)
+	wd.writeOuts(logA)
+	wd.w.WriteString(stateA.String())
+	wd.pf("ev int %d %s\n", nowB, strings.Join(fb[1:], " "))
+	wd.pf("pick tok %s\npick thr %d\n", tokB, tidB)
+	wd.writeOuts(logB)
+	for k, th := range wd.threads {
+		wd.observeThread(k, th)
+	}
+}
+
 // data <face> <name> <fresh_ms|-> <tokhex|->
 func (wd *world) doData(f []string, line string) {
 	faceNo, _ := strconv.ParseUint(f[1], 10, 64)
@@ -484,10 +609,26 @@ func (wd *world) rel(t int64) string {
 	return strconv.FormatInt(t-wd.t0.UnixNano(), 10)
 }
 
+// flush lets the faces' send loops run: every queued packet is encoded now
+func (wd *world) flush() {
+	for _, q := range wd.pend {
+		wd.log = append(wd.log, q.encode())
+	}
+	wd.pend = wd.pend[:0]
+}
+
 func (wd *world) observe() {
+	wd.flush()
+	wd.writeOuts(wd.log)
+	for k, th := range wd.threads {
+		wd.observeThread(k, th)
+	}
+}
+
+func (wd *world) writeOuts(log []sent) {
 	// sends, as a sorted multiset, tagged with the forwarding thread that made them
-	ss := make([]string, len(wd.log))
-	for i, s := range wd.log {
+	ss := make([]string, len(log))
+	for i, s := range log {
 		ss[i] = fmt.Sprintf("%d %d %s %s %s %s", s.thr, s.face, s.kind, s.name, s.hop, s.tok)
 		if s.kind == "I" {
 			wd.emitted = append(wd.emitted, s)
@@ -496,9 +637,6 @@ func (wd *world) observe() {
 	sort.Strings(ss)
 	for _, s := range ss {
 		wd.pf("out %s\n", s)
-	}
-	for k, th := range wd.threads {
-		wd.observeThread(k, th)
 	}
 }
 
@@ -603,7 +741,7 @@ func buildUniverse(r *rand.Rand) []string {
 	// shared-prefix universe, depth 0..4, with /localhost/... and the producer region included
 	u := []string{"/", "/8.1", "/8.1/8.2", "/8.1/8.2/8.3", "/8.1/8.2/8.3/8.5", "/8.1/8.3", "/8.1/8.2/8.1", "/8.2", "/8.2/8.1",
 		"/8.0", "/8.0/8.4", "/8.0/8.4/8.1", "/8.0/8.1", "/8.0/8.1/8.2", "/8.0/8.4/8.1/8.2", "/32.0/8.1", "/8.9/8.4", "/8.9/8.4/8.1",
-		"/8.6", "/8.6/8.1", "/8.7", "/8.7/8.1", "/8.1/32.2", "/8.3/8.3/8.3/8.3"}
+		"/8.6", "/8.6/8.1", "/8.7", "/8.7/8.1", "/8.1/32.2", "/8.3/8.3/8.3/8.3", "/8.10/8.4/8.1"}
 	return u
 }
 
@@ -898,6 +1036,22 @@ func (g *gen) script() []string {
 			fmt.Sprintf("sleep %d", int64(150000000)), fmt.Sprintf("sweep %d", k),
 			i(f2, a), i(f1, a)}
 	}
+	if g.r.Intn(7) == 0 {
+		// two LP-wrapped Interests of the same frame size back to back in one receive buffer of a local face: an ordinary name that the
+		// default route sends to a non-local face, then a /localhost name
+		var loc, non []uint64
+		for _, f := range g.faces {
+			if g.local[f] {
+				loc = append(loc, f)
+			} else {
+				non = append(non, f)
+			}
+		}
+		if len(loc) > 0 && len(non) > 0 {
+			return []string{fmt.Sprintf("fib ins / %d 0", non[g.r.Intn(len(non))]),
+				fmt.Sprintf("frames %d /8.10/8.4/8.1 /8.0/8.4/8.1 %s %s", loc[g.r.Intn(len(loc))], a, b)}
+		}
+	}
 	switch g.r.Intn(6) {
 	case 5:
 		// forwarded, satisfied by Data that is stale at once, revived before the PIT sweep by a MustBeFresh Interest the cache cannot
@@ -1135,8 +1289,17 @@ func TestTrace(t *testing.T) {
 				}
 				wd := newWorld(w, nt, dl, fm)
 				header(wd, k, universe, pool)
-				for _, op := range ops {
-					wd.exec(normalizeOp(op))
+				for i := 0; i < len(ops); i++ {
+					if ops[i] == "mark frames" {
+						if i+2 < len(ops) && strings.HasPrefix(normalizeOp(ops[i+1]), "int ") && strings.HasPrefix(normalizeOp(ops[i+2]), "int ") {
+							time.Sleep(time.Microsecond)
+							wd.log, wd.pend, wd.expired = wd.log[:0], wd.pend[:0], wd.expired[:0]
+							wd.doFrames(normalizeOp(ops[i+1]), normalizeOp(ops[i+2]))
+							i += 2
+						}
+						continue
+					}
+					wd.exec(normalizeOp(ops[i]))
 				}
 				wd.pf("end\n")
 				wd.close()
